@@ -14,15 +14,20 @@ package interp
 //     cwd and compared (symbolic string equality) with every entry below root and with
 //     root's ancestors; a clean absolute name outside those is concretised.
 //
+// A name that does not resolve fails with ENOENT, or ENOTDIR when the path runs through a
+// regular file (as the kernel reports it).
+//
 // Assumptions: no symbolic links below root (checked), the tree does not change during a
 // run, permissions allow reading. Directories can be opened; reading one fails.
 
 import (
+	"errors"
 	"go/types"
 	"os"
 	"path/filepath"
 	"sort"
 	"strings"
+	"syscall"
 )
 
 type osEntry struct {
@@ -257,10 +262,18 @@ func (i *interpreter) osFileInfo(e osEntry) value {
 // osResolve returns the entry a name denotes (nil: does not exist). name is returned
 // concretised when it had to be.
 func (i *interpreter) osResolve(fr *frame, name value) (*osEntry, value) {
+	e, nm, _ := i.osResolveK(fr, name)
+	return e, nm
+}
+
+// osResolveK also reports why a name does not resolve: "notdir" when a proper prefix of
+// the path is a regular file (ENOTDIR), else "notexist" (ENOENT).
+func (i *interpreter) osResolveK(fr *frame, name value) (*osEntry, value, string) {
 	m, _ := i.extState["osmodel"].(*osModel)
 	if m == nil {
 		panic(unsupported("os file access without vfOSRoot (the os model is off)"))
 	}
+	kind := "notexist"
 	real := func(n string) *osEntry {
 		p := n
 		if !filepath.IsAbs(p) {
@@ -271,25 +284,28 @@ func (i *interpreter) osResolve(fr *frame, name value) (*osEntry, value) {
 		}
 		info, err := os.Stat(p)
 		if err != nil {
+			if errors.Is(err, syscall.ENOTDIR) {
+				kind = "notdir"
+			}
 			return nil
 		}
 		return &osEntry{path: filepath.Clean(p), isDir: info.IsDir(), size: info.Size(), mode: info.Mode()}
 	}
 	if s, ok := name.(string); ok {
-		return real(s), name
+		return real(s), name, kind
 	}
 	fp := i.prog.ImportedPackage("path/filepath")
 	clean := call(i, fr, 0, fp.Func("Clean"), []value{name})
 	if strLen(clean) != strLen(name) || !i.branch(i.strEqTerm(name, clean)) {
 		s := i.concValue(name).(string)
-		return real(s), s
+		return real(s), s, kind
 	}
 	abs := clean
 	if b := strBytes(clean); len(b) == 0 || !i.isByte(b[0], '/') {
 		abs = call(i, fr, 0, fp.Func("Join"), []value{[]value{m.cwd, clean}})
 	}
 	if s, ok := abs.(string); ok {
-		return real(s), name
+		return real(s), name, kind
 	}
 	m.walk()
 	n := strLen(abs)
@@ -299,7 +315,18 @@ func (i *interpreter) osResolve(fr *frame, name value) (*osEntry, value) {
 			continue
 		}
 		if i.branch(i.strEqTerm(abs, e.path)) {
-			return e, name
+			return e, name, kind
+		}
+	}
+	// a path that runs through a regular file
+	for k := range m.entries {
+		e := &m.entries[k]
+		if e.isDir || n <= len(e.path)+1 {
+			continue
+		}
+		head := normStr(strBytes(abs)[:len(e.path)+1])
+		if i.branch(i.strEqTerm(head, e.path+"/")) {
+			return nil, name, "notdir"
 		}
 	}
 	// not an entry: either below root (does not exist) or outside the modelled tree
@@ -307,11 +334,11 @@ func (i *interpreter) osResolve(fr *frame, name value) (*osEntry, value) {
 	if n > len(pfx) {
 		head := normStr(strBytes(abs)[:len(pfx)])
 		if i.branch(i.strEqTerm(head, pfx)) {
-			return nil, name
+			return nil, name, kind
 		}
 	}
 	s := i.concValue(name).(string)
-	return real(s), s
+	return real(s), s, kind
 }
 
 // isByte decides (forking if needed) whether a string byte equals c.
@@ -325,20 +352,33 @@ func (i *interpreter) isByte(b value, c byte) bool {
 	return false
 }
 
+// osNoEntry builds the *PathError for a name that does not resolve: ENOENT or ENOTDIR.
+func (i *interpreter) osNoEntry(op string, nm value, kind string) value {
+	no := syscall.ENOENT
+	if kind == "notdir" {
+		no = syscall.ENOTDIR
+	}
+	fsPkg := i.prog.ImportedPackage("io/fs")
+	pe := fsPkg.Type("PathError").Object().Type()
+	errnoT := i.prog.ImportedPackage("syscall").Type("Errno").Object().Type()
+	var cell value = structure{op, nm, iface{errnoT, uintptr(no)}}
+	return iface{types.NewPointer(pe), &cell}
+}
+
 func (i *interpreter) osStat(fr *frame, name value, op string) value {
-	e, nm := i.osResolve(fr, name)
+	e, nm, kind := i.osResolveK(fr, name)
 	if e == nil {
-		return tuple{iface{}, i.fsPathError(op, nm, "ErrNotExist")}
+		return tuple{iface{}, i.osNoEntry(op, nm, kind)}
 	}
 	return tuple{i.osFileInfo(*e), iface{}}
 }
 
 func (i *interpreter) osOpen(fr *frame, name value) value {
-	e, nm := i.osResolve(fr, name)
+	e, nm, kind := i.osResolveK(fr, name)
 	osPkg := i.prog.ImportedPackage("os")
 	fileT := osPkg.Type("File").Object().Type()
 	if e == nil {
-		return tuple{(*value)(nil), i.fsPathError("open", nm, "ErrNotExist")}
+		return tuple{(*value)(nil), i.osNoEntry("open", nm, kind)}
 	}
 	st := &osFileState{name: nm, isDir: e.isDir, ent: *e}
 	if !e.isDir {
